@@ -194,7 +194,7 @@ public:
 	explicit SessHarness(const std::string& tmp_root) : _tmp_root(tmp_root)
 	{
 		// global logger: no file, nothing logged
-		GlobalLogger::set_global_filename("/dev/null");
+		GlobalLogger::set_global_filename(verif_logfile());
 		GlobalLogger::set_levels(Logger::Levels());
 		GlobalLogger::stop();       // its thread polls every 200 us; nothing is loggable anyway
 		mkdir(_tmp_root.c_str(), 0700);
